@@ -85,7 +85,7 @@ SIZE_POINTS = [0, 1, 75, 76, 252, 253, 254, 255, 256, 520, 521, 2047, 2048, 2049
 def plan(tier: str, seed: int) -> list[dict]:
     q = tier == "quick"
     specs = []
-    parts = 8 if q else 14
+    parts = 10 if q else 14
     for i in range(parts):
         specs.append({"name": f"trees-{i}", "fn": "shard_trees", "part": i, "parts": parts,
                       "_budget_s": 300 if q else 1300, "_timeout_s": 900 if q else 3000})
@@ -579,13 +579,13 @@ def _flip(b: bytes, bit: int) -> bytes:
 def _alterations(ctx: Ctx, env: Env, rng, arm: str, q: bytes, script: bytes, control: bytes, case: dict, full: bool) -> None:
     """Every single-bit alteration (all bits up to 2 KiB per field when ``full``; a stratified sample otherwise)."""
     lim = 2048 * 8 if full else 0
-    for bit in _bit_positions(rng, len(control) * 8, lim, 4096 if full else 420, always=range(8)):
+    for bit in _bit_positions(rng, len(control) * 8, lim, 4096 if full else 280, always=range(8)):
         _altered(ctx, env, arm, "control:" + _field_of_control_bit(bit), q, script, _flip(control, bit),
                  {**case, "what": f"control bit {bit}"})
     if script:
-        for bit in _bit_positions(rng, len(script) * 8, lim, 2048 if full else 160):
+        for bit in _bit_positions(rng, len(script) * 8, lim, 2048 if full else 100):
             _altered(ctx, env, arm, "script", q, _flip(script, bit), control, {**case, "what": f"script bit {bit}"})
-    for bit in (range(256) if full else _bit_positions(rng, 256, 0, 96)):
+    for bit in (range(256) if full else sorted(rng.sample(range(256), 72))):
         _altered(ctx, env, arm, "output-key", _flip(q, bit), script, control, {**case, "what": f"output key bit {bit}"})
     # the script as a longer/shorter string (one byte more, one byte less)
     for s2, what in ((script + b"\x00", "script + 00"), (script[:-1], "script minus last byte"), (b"\x00" + script, "00 + script")):
@@ -602,7 +602,7 @@ def _alterations(ctx: Ctx, env: Env, rng, arm: str, q: bytes, script: bytes, con
 
 
 def _eval_tree(ctx: Ctx, env: Env, rng, shape: str, tnode, key: RefKey | None, pub_kind: str, prv_kind: str,
-               flip_leaves: int, py_full: bool) -> None:
+               flip_leaves: int, py_full: bool, py_small_full: bool = True) -> None:
     T = env.T
     reftree = _to_ref(tnode)
     libtree = _to_lib(tnode, rng)
@@ -715,7 +715,8 @@ def _eval_tree(ctx: Ctx, env: Env, rng, shape: str, tnode, key: RefKey | None, p
             ctx.bulk("E3:leaf", 1)
             if i in (chosen if arm is not False else chosen[:flip_leaves]):
                 _alterations(ctx, env, rng, at, q, want_script, control, lcase,
-                             full=(arm is not False) or py_full or i == chosen[0] and len(control) * 8 + len(want_script) * 8 <= 1400)
+                             full=(arm is not False) or py_full or (py_small_full and i == chosen[0]
+                                                            and (len(control) + len(want_script)) * 8 <= 1400))
                 _engine(ctx, env, rng, at, spk_want, want_script, control, v, lcase)
         o = outcome(T.assert_valid_control_block, bytes([parity + info[probe][0][0]]) + x + info[probe][1])
         if o[0] == "raise":
@@ -814,7 +815,8 @@ def shard_trees(ctx: Ctx) -> None:
             if shape == "balanced-deep":
                 ctx.classes["tree:balanced-deep"] += 1
             _eval_tree(ctx, env, rng, name, tnode, key, pub_kind, prv_kind,
-                       flip_leaves=(2 if quick else 3) if nleaves > 1 else 1, py_full=not quick and j % 4 == 0)
+                       flip_leaves=(2 if quick else 3) if nleaves > 1 else 1, py_full=not quick and j % 4 == 0,
+                       py_small_full=j % 2 == 0)
             done += 1
     finally:
         env.close()
@@ -1016,7 +1018,7 @@ def shard_inject(ctx: Ctx) -> None:
         for ci in range(ctx.params["cases"]):
             if ctx.out_of_time():
                 break
-            key = pool[ci % len(pool)]
+            key = pool[(ci * 7 + ci // 8) % len(pool)]
             tnode = _build(rng.choice(["single", "random", "left-chain"]), 3, rng)
             reftree, libtree = _to_ref(tnode), _to_lib(tnode, rng)
             info, root = rt.taproot_tree_helper(reftree)
@@ -1031,7 +1033,18 @@ def shard_inject(ctx: Ctx) -> None:
 
             # what a library that did not refuse would produce: P + (t mod n) G
             tm = t % N
-            parity, q = rt.tweak_pubkey_with(key.x, tm) if tm else (0, key.x)
+            try:
+                parity, q = rt.tweak_pubkey_with(key.x, tm) if tm else (0, key.x)
+            except rt.Fail:
+                # P + tG is the point at infinity (d = 1 with t = n-1): no output key exists, BIP341's reference code does
+                # not define the case and the property does not mention it; recorded, not judged
+                for arm in env.arms:
+                    env.use(arm)
+                    with patched(T, "tagged_hash", shim):
+                        o = outcome(T.output_pubkey, key.sec(), libtree)
+                    ctx.stat(f"inject:output-key-at-infinity:{env.armtag(arm)}:" + ("answered" if o[0] == "ok" else "refused"))
+                env.use(True if backend_available() else None)
+                continue
             d_mod = rt.tweak_seckey_with(key.d, tm)
             i = rng.randrange(len(info))
             (v, script), path = info[i]
